@@ -45,3 +45,88 @@ Example C07_nonvacuous :
   u8_run 0 [240; 159] = 36 /\
   u8_accepts (u8_drive 10 [1] [1] (mkU8 (bytewise [226; 130; 172] TEOF) 0 0) []) = true.
 Proof. vm_compute. repeat split; reflexivity. Qed.
+
+(* ------------------------------------------------------------------ the message level, spelled out *)
+Require Import Check Frame Cipher Reader ReaderAux ReaderStream ReaderStreamC07.
+
+(* ONE TEXT MESSAGE, FRAGMENTED ARBITRARILY.  [msg_frames 1 k0 p0 l] (coq/model/ReaderStream.v):
+   a first frame with opcode 1 (text), masking key [k0], payload [p0], followed for every
+   element of [l] by the control frames [fr_ctl] the peer sends in between and then a
+   continuation frame (opcode 0) with key [fr_key] and payload [fr_data]; FIN on the last
+   data frame only ([l = []]: a single final text frame).  [msg_payload p0 l] is the
+   concatenation of all fragment payloads.  Side conditions: the frames are well-formed
+   objects, masked as the reader's side wants ([mask_ok]), within the size limit, and the
+   control frames in between are close/ping/pong, final, at most 125 bytes ([ctl_ok]) — so
+   the stream breaks no framing rule.  The reader checks UTF-8 and has no extension; its
+   side bits [state] and limit [max] are arbitrary.  [s] is ANY transport chunking of the
+   wire bytes, [bufs] ANY caller buffer sizes.
+   Then, for the NextFrame / read-to-EOF loop:
+   - VALID (the concatenation is well-formed UTF-8 by the standard definition
+     [valid_utf8], Unicode Table 3-7): clean io.EOF, nothing left over, and the events are
+     exactly the interleaved control frames followed by THE message: opcode 1, payload the
+     whole concatenation — wherever a fragment, read-buffer or chunk boundary cuts a code point;
+   - INVALID: the loop ends with the invalid-UTF-8 error; no data message is ever
+     reported (only interleaved control frames, an initial part of them); and the bytes
+     handed out before the error are a prefix of the message — the reader never makes up
+     or reorders bytes, it just stops;
+   - so: "io.EOF and the message was delivered" holds EXACTLY when the concatenation is valid. *)
+Theorem C07_text_message_iff_valid : forall state max k0 p0 l s bufs fuel,
+  let c := mkCfg state true max false in
+  let fs := msg_frames 1 k0 p0 l in
+  let whole := msg_payload p0 l in
+  wf_cfg c -> Forall wf_sframe fs ->
+  Forall (fun f => mask_ok state f = true /\ too_large c f = false) fs ->
+  Forall (fun x => Forall (fun f => ctl_ok f = true) (fr_ctl x)) l ->
+  wf_src s -> tl s = TEOF -> flat s = wire fs ->
+  (2 * length (wire fs) + 4 * length fs + 8 <= fuel)%nat ->
+  let d := drive fuel bufs (new_reader s state false true max false CbReadAll) in
+  (valid_utf8 whole = true ->
+     dr_err d = RIo EEOF /\ dr_partial d = [] /\
+     dr_events d = msg_ctl_events l ++ [mkEv 1 whole false false]) /\
+  (valid_utf8 whole = false ->
+     dr_err d = RInvalidUtf8 /\ data_events (dr_events d) = [] /\
+     (exists n, dr_events d = firstn n (msg_ctl_events l)) /\
+     exists tail, whole = dr_partial d ++ tail) /\
+  ((dr_err d = RIo EEOF /\ In (mkEv 1 whole false false) (dr_events d)) <-> valid_utf8 whole = true).
+Proof. exact text_message_iff_valid. Qed.
+Print Assumptions C07_text_message_iff_valid.
+
+(* a server, chunks of 3,1,7,2,... bytes, buffers 2,5,1. First message: "h€!" whose
+   three-byte code point E2 82 AC is spread over all three fragments, a ping in between:
+   delivered whole. Second: the byte FF in the second fragment: invalid-UTF-8 error, the
+   ping still logged, no message, and "hij" — a prefix of the message — handed out. *)
+Example C07_text_message_nonvacuous :
+  let k1 := [17; 34; 51; 68] in let k2 := [255; 0; 128; 7] in
+  let ping := mkSF true 0 9 (Some k2) [1; 2] in
+  let l1 := [mkFrag [ping] (Some k2) [130]; mkFrag [] (Some k1) [172; 33]] in
+  let fs1 := msg_frames 1 (Some k1) [104; 226] l1 in
+  let s1 := mkSrc (chunk_by [3; 1; 7; 2] (wire fs1)) TEOF in
+  let d1 := drive (2 * length (wire fs1) + 4 * length fs1 + 8) [2; 5; 1] (new_reader s1 1 false true 0 false CbReadAll) in
+  let l2 := [mkFrag [ping] (Some k2) [106; 255; 107]; mkFrag [] (Some k1) [108]] in
+  let fs2 := msg_frames 1 (Some k1) [104; 105] l2 in
+  let s2 := mkSrc (chunk_by [3; 1; 7; 2] (wire fs2)) TEOF in
+  let d2 := drive (2 * length (wire fs2) + 4 * length fs2 + 8) [2; 5; 1] (new_reader s2 1 false true 0 false CbReadAll) in
+  (wf_cfg (mkCfg 1 true 0 false) /\ Forall wf_sframe fs1 /\
+   Forall (fun f => mask_ok 1 f = true /\ too_large (mkCfg 1 true 0 false) f = false) fs1 /\
+   Forall (fun x => Forall (fun f => ctl_ok f = true) (fr_ctl x)) l1 /\
+   wf_src s1 /\ tl s1 = TEOF /\ flat s1 = wire fs1) /\
+  fs1 = [mkSF false 0 1 (Some k1) [104; 226]; ping; mkSF false 0 0 (Some k2) [130]; mkSF true 0 0 (Some k1) [172; 33]] /\
+  msg_payload [104; 226] l1 = [104; 226; 130; 172; 33] /\ valid_utf8 (msg_payload [104; 226] l1) = true /\
+  d1 = mkDR [mkEv 9 [1; 2] true false; mkEv 1 [104; 226; 130; 172; 33] false false] [] (RIo EEOF) /\
+  (Forall wf_sframe fs2 /\ Forall (fun f => mask_ok 1 f = true /\ too_large (mkCfg 1 true 0 false) f = false) fs2 /\
+   wf_src s2 /\ flat s2 = wire fs2) /\
+  msg_payload [104; 105] l2 = [104; 105; 106; 255; 107; 108] /\ valid_utf8 (msg_payload [104; 105] l2) = false /\
+  d2 = mkDR [mkEv 9 [1; 2] true false] [104; 105; 106] RInvalidUtf8.
+Proof.
+  cbv zeta. split.
+  - split; [reflexivity|]. split.
+    { repeat constructor; try reflexivity; try (intro H; discriminate H). }
+    split; [repeat constructor|]. split; [repeat constructor|].
+    split; [vm_compute; repeat constructor; discriminate|]. split; vm_compute; reflexivity.
+  - split; [reflexivity|]. split; [reflexivity|]. split; [reflexivity|]. split; [vm_compute; reflexivity|].
+    split.
+    { split; [repeat constructor; try reflexivity; try (intro H; discriminate H)|].
+      split; [repeat constructor|]. split; [vm_compute; repeat constructor; discriminate|].
+      vm_compute; reflexivity. }
+    split; [reflexivity|]. split; [reflexivity|]. vm_compute. reflexivity.
+Qed.
